@@ -304,3 +304,58 @@ specialise(
     bounds="column permutation (3 of 6 in quick), survey blank-row count and choices blank-row count fixed per instance; 4-row survey with an unlabeled group and an image without max-pixels (two row-numbered warnings) and a choice without label",
     weight=150,
 )
+
+
+# ---- a': header spelling x column order, through the real row grouping --------------------------------
+PLAIN_SPELLINGS = {
+    "label": ["label", "Label", " label", "caption", "LABEL "],
+    "hint": ["hint", "Hint", " hint", "HINT", "hint "],
+}
+
+
+def c13_header_rows(col: str, sp: int, plain_first: bool, two_langs: bool, a0: int, b0: int) -> bool:
+    """
+    vpre: 0 <= sp <= 4
+    vpre: 33 <= a0 <= 126 and a0 != 36 and 33 <= b0 <= 126 and b0 != 36
+    vpost: _ == True
+    """
+    from pyxform.parsing.sheet_headers import dealias_and_group_headers
+
+    A, B = S(a0, 49), S(b0, 50)
+
+    def run(plain_h, first):
+        cells = [(plain_h, A), (col + "::L1", B)]
+        if two_langs:
+            cells.append((col + "::L2", B + "2"))
+        if not first:
+            cells.reverse()
+        row = {"type": "text", "name": "q1"}
+        for k, v in cells:
+            row[k] = v
+        hdr = [{k: None for k in row}]
+        r = dealias_and_group_headers(sheet_name="survey", sheet_data=[row], sheet_header=hdr, header_aliases=aliases.survey_header, header_columns=_SURVEY_COLS, headers_required={"type"})
+        return r.data[0]
+
+    want = run(col, True)  # canonical spelling, plain column first
+    got = run(PLAIN_SPELLINGS[col][sp], plain_first)
+    if got != want:
+        return False
+    # and the reference itself is the documented grouping: every cell under its language
+    exp = {"default": A, "L1": B}
+    if two_langs:
+        exp["L2"] = B + "2"
+    return want.get(col) == exp
+
+
+specialise(
+    "C13",
+    "a.header-rows",
+    c13_header_rows,
+    {"col": ["label", "hint"]},
+    timeout=300,
+    kernel=K[:3] + ("pyxform.parsing.sheet_headers:process_row", "pyxform.parsing.sheet_headers:merge_dicts"),
+    shims=(),
+    symbolic="spelling of the unsuffixed column chosen by a symbolic index over 5 documented variants (case, spaces, alias), its position before or after the translated sibling columns (boolean), one or two translated siblings (boolean), two symbolic cell characters",
+    bounds="one survey row, column family fixed per instance (label, hint; message columns in both orders are C05.f); the grouped row must equal the canonical spelling in canonical order and hold every cell under its language",
+    weight=40,
+)
